@@ -321,4 +321,91 @@ theorem list_names {s : State} {now req : Nat} {p : Pattern} {names : List Nat}
   obtain ⟨m, ⟨_, _, hacc⟩, rfl⟩ := hn
   exact hacc
 
+/-! ### only allow-listed edge types count -/
+
+/-- the graph without the edges whose type is outside `ALLOWED_TRAVERSAL_EDGES` -/
+def dropOther (g : Graph) : Graph := g.filter (fun e => e.kind ≠ .other)
+
+theorem mem_dropOther {g : Graph} {e : Edge} : e ∈ dropOther g ↔ e ∈ g ∧ e.kind ≠ .other := by
+  simp only [dropOther, List.mem_filter, decide_eq_true_eq]
+
+theorem MPath.dropOther_iff {g : Graph} {a b k : Nat} : MPath (dropOther g) a b k ↔ MPath g a b k := by
+  constructor
+  · intro h
+    induction h with
+    | refl => exact .refl
+    | step e _ he hk hs ih => exact .step e ih (mem_dropOther.mp he).1 hk hs
+  · intro h
+    induction h with
+    | refl => exact .refl
+    | step e _ he hk hs ih =>
+      exact .step e ih (mem_dropOther.mpr ⟨he, by rw [hk]; exact fun h => EKind.noConfusion h⟩) hk hs
+
+theorem Witness.dropOther_iff {pol : Policy} {g : Graph} {src tgt : Nat} {l : Level} {e : Edge} :
+    Witness pol (dropOther g) src tgt l e ↔ Witness pol g src tgt l e := by
+  constructor
+  · rintro ⟨k, grp, hp, hk, he, h1, h2, h3, h4⟩
+    exact ⟨k, grp, MPath.dropOther_iff.mp hp, hk, (mem_dropOther.mp he).1, h1, h2, h3, h4⟩
+  · rintro ⟨k, grp, hp, hk, he, h1, h2, h3, h4⟩
+    refine ⟨k, grp, MPath.dropOther_iff.mpr hp, hk, mem_dropOther.mpr ⟨he, fun ho => ?_⟩, h1, h2, h3, h4⟩
+    rw [ho] at h3; cases h3
+
+theorem Level.toNat_inj {a b : Level} (h : a.toNat = b.toNat) : a = b := by
+  cases a <;> cases b <;> simp [Level.toNat] at h <;> rfl
+
+/-- two graphs with the same witnesses give the same search result -/
+theorem permLevel_congr {pol : Policy} {g g' : Graph} {src tgt : Nat}
+    (h : ∀ l e, Witness pol g' src tgt l e ↔ Witness pol g src tgt l e) :
+    permLevel pol g' src tgt = permLevel pol g src tgt := by
+  by_cases hne : src = tgt
+  · unfold permLevel; rw [if_pos hne, if_pos hne]
+  · have key : ∀ {g1 g2 : Graph}, (∀ l e, Witness pol g1 src tgt l e → Witness pol g2 src tgt l e) →
+        ∀ l1, permLevel pol g1 src tgt = some l1 → ∃ l2, permLevel pol g2 src tgt = some l2 ∧ l1.toNat ≤ l2.toNat := by
+      intro g1 g2 h12 l1 h1
+      obtain ⟨e, hw⟩ := permLevel_sound pol g1 src tgt l1 hne h1
+      exact permLevel_complete pol g2 src tgt l1 e hne (h12 l1 e hw)
+    cases h1 : permLevel pol g' src tgt with
+    | none =>
+      cases h2 : permLevel pol g src tgt with
+      | none => rfl
+      | some l2 =>
+        obtain ⟨l, hl, _⟩ := key (fun l e hw => (h l e).mpr hw) l2 h2
+        rw [h1] at hl; cases hl
+    | some l1 =>
+      obtain ⟨l2, h2, h12⟩ := key (fun l e hw => (h l e).mp hw) l1 h1
+      obtain ⟨l1', h1', h21⟩ := key (fun l e hw => (h l e).mpr hw) l2 h2
+      rw [h1] at h1'; cases h1'
+      rw [h2, Level.toNat_inj (Nat.le_antisymm h12 h21)]
+
+theorem reachStep_dropOther (g : Graph) (seen : List Nat) : reachStep (dropOther g) seen = reachStep g seen := by
+  unfold reachStep dropOther
+  suffices ∀ (acc : List Nat),
+      (g.filter (fun e => e.kind ≠ .other)).foldl
+        (fun acc e => if e.kind ≠ .other ∧ e.src ∈ seen ∧ e.dst ∉ acc then e.dst :: acc else acc) acc =
+      g.foldl (fun acc e => if e.kind ≠ .other ∧ e.src ∈ seen ∧ e.dst ∉ acc then e.dst :: acc else acc) acc from
+    this seen
+  induction g with
+  | nil => intro acc; rfl
+  | cons e t ih =>
+    intro acc
+    by_cases hk : e.kind = .other
+    · have : (List.filter (fun e => decide (e.kind ≠ EKind.other)) (e :: t)) =
+          List.filter (fun e => decide (e.kind ≠ EKind.other)) t := by
+        simp [hk]
+      rw [this, List.foldl_cons, ih]
+      simp [hk]
+    · have : (List.filter (fun e => decide (e.kind ≠ EKind.other)) (e :: t)) =
+          e :: List.filter (fun e => decide (e.kind ≠ EKind.other)) t := by
+        simp [hk]
+      rw [this, List.foldl_cons, List.foldl_cons, ih]
+
+theorem checkPath_dropOther (g : Graph) (src tgt : Nat) : checkPath (dropOther g) src tgt = checkPath g src tgt := by
+  unfold checkPath
+  have : ∀ n seen, reachN (dropOther g) n seen = reachN g n seen := by
+    intro n
+    induction n with
+    | zero => intro seen; rfl
+    | succ n ih => intro seen; rw [reachN, reachN, reachStep_dropOther, ih]
+  rw [this]
+
 end Neumann.Vault
